@@ -18,6 +18,7 @@ import (
 	"os"
 	"os/exec"
 	"path/filepath"
+	"regexp"
 	"sort"
 	"strings"
 	"sync"
@@ -562,16 +563,235 @@ func c55Select(all []*c55Script, seed int64) []*c55Script {
 	return sel
 }
 
+// ---------------------------------------------------------------- crash isolation
+//
+// The in-process runs are executed by a child process (this test binary re-executed): a crash of the backup
+// command (a panic in a goroutine of the code under test cannot be recovered) then costs one run, is recorded as
+// one record (status 2, no snapshot; judged by TLC like every other record) and the remaining runs still happen.
+
+// c55Sink receives what a run produces (parent: kit.Result + recs.ndjson; child: a line-per-event progress file).
+type c55Sink interface {
+	Count(name string, d int)
+	Problem(format string, args ...any)
+	Case(key string, nontrivial bool)
+	Record(rec map[string]any)
+	Sample(rec map[string]any)
+}
+
+type c55Event struct {
+	T      string         `json:"t"` // begin | end | count | problem | case | rec | sample | done
+	N      int            `json:"n,omitempty"`
+	Name   string         `json:"name,omitempty"`
+	D      int            `json:"d,omitempty"`
+	Msg    string         `json:"msg,omitempty"`
+	Key    string         `json:"key,omitempty"`
+	NonTri bool           `json:"nt,omitempty"`
+	Rec    map[string]any `json:"rec,omitempty"`
+}
+
+type c55ParentSink struct {
+	res  *kit.Result
+	recs *kit.NDJSON
+}
+
+func (p *c55ParentSink) Count(name string, d int)           { p.res.Count(name, d) }
+func (p *c55ParentSink) Problem(format string, args ...any) { p.res.Problem(format, args...) }
+func (p *c55ParentSink) Case(key string, nontrivial bool)   { p.res.Case(key, nontrivial) }
+func (p *c55ParentSink) Record(rec map[string]any)          { p.recs.Write(rec) }
+func (p *c55ParentSink) Sample(rec map[string]any)          { p.res.Sample(rec) }
+
+// c55ChildSink appends every event to the progress file at once (unbuffered: it must survive a crash).
+type c55ChildSink struct{ f *os.File }
+
+func (c *c55ChildSink) emit(ev c55Event) {
+	b, _ := json.Marshal(ev)
+	_, _ = c.f.Write(append(b, '\n'))
+}
+func (c *c55ChildSink) Count(name string, d int) { c.emit(c55Event{T: "count", Name: name, D: d}) }
+func (c *c55ChildSink) Problem(format string, args ...any) {
+	c.emit(c55Event{T: "problem", Msg: fmt.Sprintf(format, args...)})
+}
+func (c *c55ChildSink) Case(key string, nontrivial bool) {
+	c.emit(c55Event{T: "case", Key: key, NonTri: nontrivial})
+}
+func (c *c55ChildSink) Record(rec map[string]any) { c.emit(c55Event{T: "rec", Rec: rec}) }
+func (c *c55ChildSink) Sample(rec map[string]any) { c.emit(c55Event{T: "sample", Rec: rec}) }
+
+type c55PlannedRun struct {
+	s    *c55Script
+	mode string
+}
+
+// c55Plan lists the runs: every script without parent; additionally on top of a parent snapshot of the unfaulted
+// tree for a seeded part, and with --skip-if-unchanged on top of a parent taken under the same faults for another part.
+func c55Plan(sel []*c55Script, seed int64) []c55PlannedRun {
+	var plan []c55PlannedRun
+	for n, s := range sel {
+		plan = append(plan, c55PlannedRun{s, "noparent"})
+		switch (n + int(seed)) % kit.Pick(4, 5) {
+		case 0:
+			plan = append(plan, c55PlannedRun{s, "parent"})
+		case 1:
+			if !c55HasSwap(s) { // a swap changes the tree for good: the second run would see another tree
+				plan = append(plan, c55PlannedRun{s, "skip"})
+			}
+		}
+	}
+	return plan
+}
+
+// c55Child is the body of the re-executed test binary: runs plan[from:] and reports through the progress file.
+func c55Child(t *testing.T, plan []c55PlannedRun) {
+	from := 0
+	_, _ = fmt.Sscanf(os.Getenv("VERIF_C55_FROM"), "%d", &from)
+	f, err := os.OpenFile(os.Getenv("VERIF_C55_PROGRESS"), os.O_WRONLY|os.O_APPEND|os.O_CREATE, 0o644)
+	if err != nil {
+		t.Fatal(err)
+	}
+	defer f.Close()
+	sink := &c55ChildSink{f: f}
+	defer func() { backupFSTestHook = nil }()
+	var e *vEnv
+	for n := from; n < len(plan); n++ {
+		if e == nil || (n-from)%120 == 0 {
+			e = newVEnv(t, nil)
+			if err := e.init("2"); err != nil {
+				t.Fatal(err)
+			}
+		}
+		sink.emit(c55Event{T: "begin", N: n})
+		c55RunInproc(t, e, plan[n].s, plan[n].mode, n+1, sink)
+		sink.emit(c55Event{T: "end", N: n})
+	}
+	sink.emit(c55Event{T: "done"})
+}
+
+var c55ArgsRe = regexp.MustCompile(`\([^()]*\)$`)
+
+// c55CrashSite returns the first frame of the crashing goroutine that lies in the tree under test
+// ("pkg.func (file.go)") and whether that frame belongs to the harness (zz_verif_*).
+func c55CrashSite(out string) (site string, harness bool) {
+	i := strings.Index(out, "[running]:")
+	if i < 0 {
+		return "", false
+	}
+	lines := strings.Split(out[i:], "\n")
+	for k := 1; k+1 < len(lines); k += 2 {
+		fn, loc := strings.TrimSpace(lines[k]), strings.Fields(lines[k+1])
+		if fn == "" || strings.HasPrefix(fn, "goroutine ") || len(loc) == 0 {
+			break
+		}
+		if !strings.HasPrefix(fn, "github.com/restic/restic/") {
+			continue
+		}
+		fn = c55ArgsRe.ReplaceAllString(fn, "")
+		fn = fn[strings.LastIndex(fn, "/")+1:]
+		file := filepath.Base(loc[0])
+		if j := strings.LastIndex(file, ":"); j > 0 {
+			file = file[:j]
+		}
+		return fn + " (" + file + ")", strings.HasPrefix(file, "zz_verif_")
+	}
+	return "", false
+}
+
+// c55RunChildren executes the plan in child processes and replays their events into sink.
+func c55RunChildren(t *testing.T, plan []c55PlannedRun, res *kit.Result, sink *c55ParentSink) {
+	dir, err := os.MkdirTemp("", "verif-c55prog-")
+	if err != nil {
+		t.Fatal(err)
+	}
+	defer os.RemoveAll(dir)
+	crashes := 0
+	for from, round := 0, 0; from < len(plan); round++ {
+		prog := filepath.Join(dir, fmt.Sprintf("progress-%d.ndjson", round))
+		cmd := exec.Command(os.Args[0], "-test.run=^TestVerif_C55$", "-test.count=1", "-test.timeout=3000s")
+		cmd.Env = append(os.Environ(), "VERIF_C55_CHILD=1", fmt.Sprintf("VERIF_C55_FROM=%d", from), "VERIF_C55_PROGRESS="+prog)
+		out, runErr := cmd.CombinedOutput()
+		began, ended, done := -1, -1, false
+		if f, err := os.Open(prog); err == nil {
+			sc := bufio.NewScanner(f)
+			sc.Buffer(make([]byte, 1<<22), 1<<22)
+			for sc.Scan() {
+				var ev c55Event
+				if json.Unmarshal(sc.Bytes(), &ev) != nil {
+					continue // a torn last line
+				}
+				switch ev.T {
+				case "begin":
+					began = ev.N
+				case "end":
+					ended = ev.N
+				case "done":
+					done = true
+				case "count":
+					sink.Count(ev.Name, ev.D)
+				case "problem":
+					sink.Problem("%s", ev.Msg)
+				case "case":
+					sink.Case(ev.Key, ev.NonTri)
+				case "rec":
+					sink.Record(ev.Rec)
+				case "sample":
+					sink.Sample(ev.Rec)
+				}
+			}
+			f.Close()
+		}
+		if done && runErr == nil {
+			return
+		}
+		o := string(out)
+		site, harness := c55CrashSite(o)
+		if began < 0 || began == ended || harness || !(strings.Contains(o, "panic: ") || strings.Contains(o, "fatal error: ")) {
+			res.Problem("child process for runs %d.. failed outside a backup run (began %d, ended %d, err %v): %s", from, began, ended, runErr, vTail(o, 1500))
+			return
+		}
+		// the backup command crashed during run `began`: one record, then go on with the next run
+		crashes++
+		pr := plan[began]
+		head := ""
+		if j := strings.Index(o, "panic: "); j >= 0 {
+			head = o[j:]
+		} else {
+			head = o[strings.Index(o, "fatal error: "):]
+		}
+		if len(head) > 160 {
+			head = head[:160]
+		}
+		head = strings.ReplaceAll(head, "\n", " ")
+		delivered := c55Predicted(pr.s)
+		k := c55Key(pr.s, delivered)
+		rec := map[string]any{"mode": "inproc-" + pr.mode, "script": pr.s.idx, "group": pr.s.Group, "items": c55Items(pr.s, delivered), "status": 2,
+			"saved": false, "skipped": false, "insnap": []int{}, "extra": 0, "content_ok": true, "err": head,
+			"detail": "the backup command crashed at " + site + " (delivered = planned faults)", "key": k, "panic": true, "site": strings.TrimSuffix(strings.Fields(site + " ?")[0], "?")}
+		sink.Record(rec)
+		sink.Sample(rec)
+		sink.Count("runs_crashed", 1)
+		sink.Case(fmt.Sprintf("%s|%v|%v|%s|crash", pr.mode, pr.s.Parent, pr.s.Kind, k), true)
+		if crashes >= 8 {
+			res.Problem("%d crashes of the backup command, giving up at run %d of %d", crashes, began, len(plan))
+			return
+		}
+		from = began + 1
+	}
+}
+
 func TestVerif_C55(t *testing.T) {
-	res := kit.NewResult("one case = one run of the real backup command on a TLC-enumerated (tree shape, fault assignment, run mode) script; distinct by (mode, shape, delivered fault classes and positions); non-trivial when at least one fault was delivered to restic")
-	recs := kit.NewNDJSON("recs.ndjson")
-	defer recs.Close()
 	all := c55Load(t)
 	if len(all) < 1000 {
 		t.Fatalf("only %d scripts", len(all))
 	}
 	seed := kit.Seed()
 	sel := c55Select(all, seed)
+	plan := c55Plan(sel, seed)
+	if os.Getenv("VERIF_C55_CHILD") != "" {
+		c55Child(t, plan)
+		return
+	}
+	res := kit.NewResult("one case = one run of the real backup command on a TLC-enumerated (tree shape, fault assignment, run mode) script; distinct by (mode, shape, delivered fault classes and positions); non-trivial when at least one fault was delivered to restic")
+	recs := kit.NewNDJSON("recs.ndjson")
+	defer recs.Close()
 	res.Count("scripts_in_table", len(all))
 	res.Count("scripts_selected", len(sel))
 	classes := map[string]bool{}
@@ -583,33 +803,7 @@ func TestVerif_C55(t *testing.T) {
 	}
 	res.Count("single_fault_classes_selected", len(classes))
 
-	defer func() { backupFSTestHook = nil }()
-	var e *vEnv
-	runs := 0
-	for n, s := range sel {
-		// mode: every script without parent; additionally on top of a parent snapshot of the unfaulted tree for a
-		// seeded part, and with --skip-if-unchanged on top of a parent taken under the same faults for another part
-		modes := []string{"noparent"}
-		switch (n + int(seed)) % kit.Pick(4, 5) {
-		case 0:
-			modes = append(modes, "parent")
-		case 1:
-			if !c55HasSwap(s) { // a swap changes the tree for good: the second run would see another tree
-				modes = append(modes, "skip")
-			}
-		}
-		for _, mode := range modes {
-			if e == nil || runs%120 == 0 {
-				e = newVEnv(t, nil)
-				if err := e.init("2"); err != nil {
-					t.Fatal(err)
-				}
-			}
-			runs++
-			c55RunInproc(t, e, s, mode, runs, res, recs)
-		}
-	}
-	backupFSTestHook = nil
+	c55RunChildren(t, plan, res, &c55ParentSink{res: res, recs: recs})
 
 	tb := time.Now()
 	c55Binary(t, all, res, recs)
@@ -636,7 +830,7 @@ func c55Faulty(tr *c55Tree, s *c55Script, side string) *c55FS {
 	return ffs
 }
 
-func c55RunInproc(t testing.TB, e *vEnv, s *c55Script, mode string, run int, res *kit.Result, recs *kit.NDJSON) {
+func c55RunInproc(t testing.TB, e *vEnv, s *c55Script, mode string, run int, res c55Sink) {
 	base, err := os.MkdirTemp(e.base, "src-")
 	if err != nil {
 		t.Fatal(err)
@@ -761,7 +955,7 @@ func c55RunInproc(t testing.TB, e *vEnv, s *c55Script, mode string, run int, res
 	}
 	rec := map[string]any{"mode": "inproc-" + mode, "script": s.idx, "group": s.Group, "items": c55Items(s, delivered), "status": status,
 		"saved": saved, "skipped": skipped, "insnap": insnap, "extra": extra, "content_ok": contentOK, "err": errText, "detail": detail, "key": c55Key(s, delivered)}
-	recs.Write(rec)
+	res.Record(rec)
 	res.Count("runs_inproc_"+mode, 1)
 	res.Count(fmt.Sprintf("status_%d", status), 1)
 	k := c55Key(s, delivered)
